@@ -5,10 +5,10 @@ from .manifest_data import NOTE_COMMON
 CLAIM = {
   "technique": "Coq models of the whole encoder (validator, LRU, timestamp compression, marshalling, header/CRC) and the whole decoder (definitions, fields with the size "
                "fallbacks, developer fields, expansion) tied byte-exactly / message-exactly to the Go code by differential execution under vm_compute; value-level "
-               "round-trip theorems (induction), refutation theorem with witness for compressed timestamps; direct Go round-trip oracle as search",
+               "round-trip theorems (induction), theorem for compressed timestamps over all message sequences (encoder rule vs decoder clock); direct Go round-trip oracle as search",
   "text": "Partial proof. Proved: every numeric scalar/array field value written with its base type is read back unchanged (all lengths, both byte orders), strings per C06; "
-          "the full sequence-level statement is kept in Props/C01.v as a comment and is REFUTED for compressed timestamps that go back inside the 32 s window "
-          "(C01_timestamp_refuted, witness [t,t+10,t+5,t+6] -> [t,t+10,t+37,t+38], known finding). What is not yet a theorem (LRU/definition liveness, whole-message framing) "
+          "for every message sequence the decoder's clock reconstructs exactly the timestamps the encoder compressed into headers or wrote in full (C01_timestamps; holds since "
+          "fix: 0d6e112, the translated flag makes the obligation fail on a tree without it). The full sequence-level statement is kept in Props/C01.v as a comment. What is not yet a theorem (LRU/definition liveness, whole-message framing) "
           "is decided per run: model-encode = Go bytes, model-decode(Go bytes) = Go decode, and Go decode(Go encode x) = validated x on structured inputs over all "
           "encoder options and chained files.",
   "note": NOTE_COMMON + " gen/Factory.v and gen/Consts.v are dumped from the compiled packages. Primitive float/int63 operations appear under Print Assumptions "
